@@ -44,6 +44,7 @@ var (
 	kC1 = node.K("c1")
 	kC2 = node.K("c2")
 	kC3 = node.K("c3")
+	kC4 = node.K("c4")
 	kV  = node.User(0) // voter, 1090 LEMO = 5 votes
 	kW  = node.User(1) // voter, 300 LEMO = 1 vote
 )
@@ -53,7 +54,16 @@ type candB struct {
 	key  *node.Key
 }
 
-var candsB = []candB{{"d0", kD0}, {"c1", kC1}, {"c2", kC2}, {"c3", kC3}}
+var candsB = []candB{{"d0", kD0}, {"c1", kC1}, {"c2", kC2}, {"c3", kC3}, {"c4", kC4}}
+
+// tie scenario: the four candidate keys in address order play the roles a < b < x < z (see prefixTie)
+var tieRole [4]*node.Key
+
+func init() {
+	ks := []*node.Key{kC1, kC2, kC3, kC4}
+	sort.Slice(ks, func(i, j int) bool { return bytes.Compare(ks[i].Addr[:], ks[j].Addr[:]) < 0 })
+	copy(tieRole[:], ks)
+}
 
 func nameB(a common.Address) string {
 	for _, c := range candsB {
@@ -124,6 +134,7 @@ func init() {
 	def("vVc1", "vote", vote(kV, kC1))
 	def("vWc2", "vote", vote(kW, kC2)) // +1
 	def("vWd0", "vote", vote(kW, kD0))
+	def("vVtz", "vote", func(exp uint64) *types.Transaction { return node.Vote(kV, tieRole[3].Addr, exp) }) // tie scenario: V re-votes x -> z
 	def("tFV", "transfer-to-voter", xfer(node.Founder(), kV, 1000)) // V: 5 -> 10 votes
 	def("tVF", "transfer-from-voter", xfer(kV, node.Founder(), 500)) // V: 5 -> 2 votes
 }
@@ -166,6 +177,25 @@ func prefixTxsB() types.Transactions {
 	}
 }
 
+// prefixTie: four candidates besides d0. In address order a < b < x < z: a and b register with 50001
+// votes, x with 50001 + the 5 votes of V, z with 50004. The list is [x:50006 z:50004 a:50001]; b (same
+// votes as a, bigger address) is outside. When V moves its votes from x to z, x falls to 50001 and
+// must leave the list in favour of b (b < x by address).
+func prefixTie() types.Transactions {
+	min := params.MinCandidateDeposit
+	fo := node.Founder()
+	e := expBaseB - 100
+	txs := types.Transactions{node.Transfer(fo, kV.Addr, node.Lemo(1090), e)}
+	for i, k := range tieRole {
+		txs = append(txs, node.Transfer(fo, k.Addr, new(big.Int).Add(min, node.Lemo(2000)), e+1+uint64(i)))
+	}
+	dep := []int64{100, 100, 100, 400}
+	for i, k := range tieRole {
+		txs = append(txs, node.Register(k, new(big.Int).Add(min, node.Lemo(dep[i])), profileB(k, "true"), e+10+uint64(i)))
+	}
+	return append(txs, node.Vote(kV, tieRole[2].Addr, e+20))
+}
+
 // ---------------------------------------------------------------------------------------------
 // scenarios
 
@@ -174,7 +204,9 @@ type scenB struct {
 	Menu         map[int][]string // height -> blocks ("-" or tx names separated by commas)
 	MaxHeight    int
 	MaxRestarts  int
-	RestartsFrom int // restarts are events once the head has reached this height
+	RestartsFrom int    // restarts are events once the head has reached this height
+	Prefix       string // "" = fund + register c1, c2; "tie" = prefixTie
+	CrashUpTo    int    // "cb" events (block during whose stabilisation the twin node dies) up to this height
 }
 
 func heightKind(h int) string {
@@ -196,13 +228,25 @@ func (s *scenB) describe() interface{} {
 	for h, m := range s.Menu {
 		menu[fmt.Sprintf("height_%02d(%s)", h, heightKind(h))] = m
 	}
-	return map[string]interface{}{"block_menu_per_height": menu, "max_height": s.MaxHeight, "max_restarts": s.MaxRestarts,
+	prefix := "height 1: fund V (1090 LEMO = 5 votes), W (300 LEMO = 1 vote), d0, c1..c3; register c1 (50004 votes) and c2 (50001 votes)"
+	if s.Prefix == "tie" {
+		prefix = "height 1: four candidates, in address order a < b < x < z: a, b 50001 votes, x 50001 + V's 5, z 50004 (list [x z a], b outside on the tie with a)"
+	}
+	return map[string]interface{}{"block_menu_per_height": menu, "max_height": s.MaxHeight, "max_restarts": s.MaxRestarts, "prefix_block": prefix,
+		"blocks_with_the_twin_node_dying_inside_stabilisation_up_to_height": s.CrashUpTo,
 		"restarts_from_height": s.RestartsFrom, "term_duration": termDuration, "interim_duration": interimDuration,
 		"deputies_per_term": deputyCount, "list_slots": listLimit,
 		"txs": "r=register(deposit: min / +100 / +300 / +500 LEMO), u=top-up, x=unregister, v=vote/re-vote, t=transfer to/from the voter V"}
 }
 
 func (s *scenB) depth() int { return s.MaxHeight - 1 + s.MaxRestarts }
+
+func (s *scenB) prefixTxs() types.Transactions {
+	if s.Prefix == "tie" {
+		return prefixTie()
+	}
+	return prefixTxsB()
+}
 
 var scenariosB = map[string]*scenB{}
 var sampleB []string
@@ -223,7 +267,13 @@ func setTierB(th bool) {
 		scenariosB["B:term"] = &scenB{Name: "B:term", MaxHeight: 6, MaxRestarts: 1, Menu: map[int][]string{
 			2: {"-", "rC3+3", "xC1"}, 3: {"-", "rC3+5", "uC2+3", "xC1", "xD0", "vWc2"}, 4: {"-", "uC2+3", "xC1", "vVc2", "uC2+5"}, 5: {"-"}, 6: {"-"}}}
 	}
-	scenariosB["B:free"] = &scenB{Name: "B:free", MaxHeight: 14, MaxRestarts: 9}
+	// tie: a listed candidate falls back to the votes of the last listed one (real re-vote transaction)
+	scenariosB["B:tie"] = &scenB{Name: "B:tie", Prefix: "tie", MaxHeight: 3, MaxRestarts: 1, Menu: map[int][]string{2: {"-", "vVtz"}, 3: {"-", "vVtz"}}}
+	// crash: the twin node dies inside the stabilisation of a block (see layer A, crashInStabilise)
+	scenariosB["B:crash"] = &scenB{Name: "B:crash", MaxHeight: 3, MaxRestarts: 0, CrashUpTo: 3, Menu: map[int][]string{
+		2: {"-", "rC3+5", "uC2+5", "xC1"}, 3: {"-", "rC3+5", "uC2+5", "xC1", "vWc2"}}}
+	scenariosB["B:free"] = &scenB{Name: "B:free", MaxHeight: 14, MaxRestarts: 9, CrashUpTo: 14}
+	scenariosB["B:free-tie"] = &scenB{Name: "B:free-tie", Prefix: "tie", MaxHeight: 14, MaxRestarts: 9, CrashUpTo: 14}
 	sampleB = []string{"B:term", "b rC3+3", "rs", "b vWc2", "b -", "b -", "b -"}
 }
 
@@ -255,6 +305,8 @@ type worldB struct {
 	head     *types.Block
 	wires    []*types.Block
 	restarts int
+	crashes  int
+	crashing bool
 	blocks   int // block events so far
 	o1       *core.Outcome
 	full     []string
@@ -643,7 +695,7 @@ func (w *worldB) restartO() bool {
 	w.restarts++
 	w.lastKind = "restart"
 	count("restart_B", 1)
-	if w.o.BC.CurrentBlock().Hash() != w.head.Hash() {
+	if w.o.BC.CurrentBlock().Hash() != w.head.Hash() && !w.crashing {
 		w.viol("restart-loses-the-head", fmt.Sprintf("after the restart the head is height %d, before it was %d", w.o.BC.CurrentBlock().Height(), w.head.Height()))
 		return false
 	}
@@ -668,13 +720,13 @@ func (w *worldB) confirmIfNeeded(n *node.Node, b *types.Block, miner *node.Key) 
 
 // block builds the next block from spec on F's state, delivers it to both nodes and evaluates the
 // oracles. ok=false: stop (violation or nothing to expand).
-func (w *worldB) block(spec string, prefix bool) (ok bool) {
+func (w *worldB) block(spec string, prefix bool, crashO bool) (ok bool) {
 	parent := w.head
 	height := parent.Height() + 1
 	kind := heightKind(int(height))
 	var txs types.Transactions
 	if prefix {
-		txs = prefixTxsB()
+		txs = w.sc.prefixTxs()
 	} else if spec != "-" {
 		for j, name := range strings.Split(spec, ",") {
 			d := txsB[name]
@@ -732,6 +784,41 @@ func (w *worldB) block(spec string, prefix bool) (ok bool) {
 	for _, n := range []*node.Node{w.f, w.o} {
 		n.Use()
 		var ierr error
+		if crashO && n == w.o {
+			// process death inside SetStableBlock at the rewrite of context.data (as in layer A): that Flush
+			// fails, the engine gives up on the block, the process "dies" (stop, reopen)
+			good := n.DB.Context.Path
+			n.DB.Context.Path = n.Dir + "/no-such-directory/context.data"
+			perr := catch(func() { ierr = n.BC.InsertBlock(node.Wire(b)) })
+			n.DB.Context.Path = good
+			if perr != nil {
+				w.viol("crash-injection-panics/"+firstLine(perr.Error()), fmt.Sprintf("%s: %v", w.nodeLabel(n), perr))
+				return false
+			}
+			if ierr == nil {
+				// no candidate record in the commit: the crash point does not exist
+				w.o1.Tags = append(w.o1.Tags, "B/crash-point-absent")
+				count("crash_point_absent_B", 1)
+				return false
+			}
+			count("crash_inside_stabilise_B", 1)
+			w.crashing = true
+			rok := w.restartO()
+			w.crashing = false
+			if !rok {
+				return false
+			}
+			w.restarts-- // counted as a crash, not as a clean restart event
+			w.crashes++
+			w.lastKind = "crash-in-" + kind + "[" + txKinds(spec) + "]"
+			if w.o.BC.StableBlock().Hash() != b.Hash() {
+				// the pointer had not moved: accounts ahead of the pointer, C08's subject (see layer A)
+				w.o1.Tags = append(w.o1.Tags, "B/crash-before-pointer-move")
+				count("crash_before_stable_pointer_moved_B(C08,not-judged)", 1)
+				return false
+			}
+			continue
+		}
 		if perr := catch(func() { ierr = n.BC.InsertBlock(node.Wire(b)) }); perr != nil {
 			ierr = perr
 		}
@@ -756,9 +843,12 @@ func (w *worldB) block(spec string, prefix bool) (ok bool) {
 	w.wires = append(w.wires, wire)
 	w.blocks++
 	of, _, ok := w.checkLists("after-"+kind+"-block", parentF.states, func(i int, o obsB) string {
+		if crashO && i == 1 {
+			return "startup-after-crash-at-context.data-flush"
+		}
 		return howB(b, parentTops[i], parentF.states, o.states)
 	})
-	if !ok {
+	if !ok && !continuePastLists {
 		return false
 	}
 	line := fmt.Sprintf("after block %d (%s, mined by %s): terms F %s | O %s", height, kind, nameB(miner.Addr), termsOf(w.f.DM), termsOf(w.o.DM))
@@ -777,6 +867,10 @@ func (w *worldB) block(spec string, prefix bool) (ok bool) {
 	}
 	return true
 }
+
+// continuePastLists (C10_CONTINUE=1, hand replays only): a wrong list does not end the run, so that
+// its consequences (nodes that disagree on a snapshot block, a stuck node) can be written out.
+var continuePastLists = os.Getenv("C10_CONTINUE") != ""
 
 func specOr(spec string, prefix bool) string {
 	if prefix {
@@ -923,6 +1017,9 @@ func (w *worldB) enabled() []string {
 	if h <= w.sc.MaxHeight {
 		for _, m := range w.sc.Menu[h] {
 			out = append(out, "b "+m)
+			if h <= w.sc.CrashUpTo && m != "-" && w.crashes == 0 {
+				out = append(out, "cb "+m)
+			}
 		}
 	}
 	if w.restarts < w.sc.MaxRestarts && int(w.head.Height()) >= w.sc.RestartsFrom && w.lastKind != "restart" {
@@ -955,7 +1052,7 @@ func runLayerB(full []string) (o core.Outcome) {
 	w.o = newNodeB("c10bO", node.K("observerO"))
 	w.head = w.f.BC.Genesis()
 	t0 = since("B_nodes", t0)
-	if !w.block("-", true) {
+	if !w.block("-", true, false) {
 		if len(o.Violations) == 0 {
 			panic("harness: prefix block failed")
 		}
@@ -979,7 +1076,9 @@ func runLayerB(full []string) (o core.Outcome) {
 				})
 			}
 		case strings.HasPrefix(ev, "b "):
-			ok = w.block(ev[2:], false)
+			ok = w.block(ev[2:], false, false)
+		case strings.HasPrefix(ev, "cb "):
+			ok = w.block(ev[3:], false, true)
 		default:
 			panic(errInvalidHistory)
 		}
@@ -993,7 +1092,7 @@ func runLayerB(full []string) (o core.Outcome) {
 	}
 	t0 = time.Now()
 	// a fresh node receives the chain (final state only: every prefix is a history of its own)
-	if len(evs) > 0 && strings.HasPrefix(evs[len(evs)-1], "b ") && (sc.Name == "B:free" || int(w.head.Height())%2 == 0 || int(w.head.Height()) == sc.MaxHeight) {
+	if len(evs) > 0 && strings.HasSuffix(strings.Fields(evs[len(evs)-1])[0], "b") && (strings.HasPrefix(sc.Name, "B:free") || int(w.head.Height())%2 == 0 || int(w.head.Height()) == sc.MaxHeight) {
 		if !w.freshNode() {
 			return o
 		}
@@ -1008,8 +1107,8 @@ func runLayerB(full []string) (o core.Outcome) {
 		sort.Slice(e, func(i, j int) bool { return e[i].name < e[j].name })
 		return fmtList(e)
 	}
-	o.Key = fmt.Sprintf("%s|h=%d|rs=%d|last=%v|%s|%s|F:top%s idx%s pers%s|O:top%s idx%s pers%s|terms %s",
-		full[0], w.head.Height(), w.restarts, w.lastKind == "restart", of.stateStr(), of.extra, fmtList(of.got), fmtList(of.index), pl(pf),
+	o.Key = fmt.Sprintf("%s|h=%d|rs=%d/%d|last=%v|%s|%s|F:top%s idx%s pers%s|O:top%s idx%s pers%s|terms %s",
+		full[0], w.head.Height(), w.restarts, w.crashes, w.lastKind == "restart", of.stateStr(), of.extra, fmtList(of.got), fmtList(of.index), pl(pf),
 		fmtList(oo.got), fmtList(oo.index), pl(po), termsOf(w.o.DM))
 	if len(evs) < sc.depth() {
 		o.Enabled = w.enabled()
@@ -1033,6 +1132,15 @@ func shrinkB(h []string, fails func([]string) bool) []string {
 				min = cand
 				changed = true
 				continue
+			}
+			if strings.HasPrefix(min[i], "cb ") {
+				cand = append([]string{}, min...)
+				cand[i] = min[i][1:]
+				if fails(cand) {
+					min = cand
+					changed = true
+					continue
+				}
 			}
 			if strings.HasPrefix(min[i], "b ") && min[i] != "b -" {
 				cand = append([]string{}, min...)
@@ -1070,6 +1178,10 @@ func kindSeqB(evs []string) string {
 			continue
 		}
 		h++
+		if strings.HasPrefix(e, "cb ") {
+			l[i] = "crash-in-" + heightKind(h) + "[" + txKinds(e[3:]) + "]"
+			continue
+		}
 		l[i] = heightKind(h) + "[" + txKinds(e[2:]) + "]"
 	}
 	return strings.Join(l, ",")
